@@ -89,11 +89,15 @@ CATALOGUE = {
 }
 # result items are lists for these (so a following arithmetic entry still has a meaning but different cost): keep
 # compositions to entries whose output items are scalars unless the next entry is shape-agnostic
-SHAPE_AGNOSTIC = {"zip-inf", "zip-self", "interleave", "prefixes", "windows-2", "windows-3", "chunks-3", "chunks-2", "uniquify", "enumerate",
+SHAPE_AGNOSTIC = {"uniquify", "zip-inf", "zip-self", "interleave", "prefixes", "windows-2", "windows-3", "chunks-3", "chunks-2", "uniquify", "enumerate",
                   "prepend", "append-to-list", "slice-from-3", "behead", "every-2nd", "map-ƛ", "map-M", "map-v", "double", "add-1", "mul-3",
                   "negate", "add-inf", "flatten"}
 LIST_ITEMS = {"zip-inf", "zip-self", "prefixes", "windows-2", "windows-3", "chunks-3", "chunks-2", "enumerate"}
 DATA_DEPENDENT = {"filter-'", "filter-F", "filter-3", "uniquify"}
+# entries whose output items are pairwise distinct when their input items are (uniquify after them stays linear)
+DISTINCT_ITEMS = {"enumerate", "windows-2", "windows-3", "chunks-3", "chunks-2", "prefixes", "zip-inf", "zip-self", "map-ƛ", "map-M", "map-v",
+                  "map-dec", "add-1", "sub-2", "mul-3", "negate", "double", "increment", "decrement", "square", "cumulative-sums", "every-2nd",
+                  "add-inf"}
 STREAM_PRESERVING = {"behead", "slice-from-3", "prepend"}  # the stream is still 1, 2, 3, ... up to a shift
 _CODE = {}
 
@@ -156,6 +160,8 @@ def _valid(comp, kind):
             return False
         if i > 0 and comp[i - 1] in LIST_ITEMS and name not in SHAPE_AGNOSTIC:
             return False
+        if name == "uniquify" and all(prev in DISTINCT_ITEMS or prev in STREAM_PRESERVING for prev in comp[:i]):
+            continue  # every item of the input is new, so m outputs need about m inputs
         if name in DATA_DEPENDENT and any(prev not in STREAM_PRESERVING for prev in comp[:i]):
             # a filter / uniquify only has a linear demand on inputs it can keep finding items in:
             # after e.g. doubling, 'keep the odd ones' legitimately never yields anything
